@@ -243,12 +243,15 @@ def _load():
                  exact=0.0, renege=0.15, jockey=0.0, batch=0.3, ccm=0.1, cct=0.0, horizon=[12.0, 30.0, 40.0],
                  sched_pre_opts=[False, False, "resume", "restart", "resample", "reroute"])
     tt["slot"] = 0.9     # slot is tried only where sched was not drawn
-    register(Profile("C12", [C12], [(1, tt)],
+    tt_blk = dict(tt, qcap=0.8, qcap_vals=[INF, 0, 1, 2], n=[2, 2, 3], sched_pre_opts=[False], slot=0.0)   # overtime servers holding blocked customers
+    register(Profile("C12", [C12], [(4, tt), (1, tt_blk)],
                      "distinct history digest; non-trivial = >=1 shift end with a service in flight or >=1 slot with more customers waiting than its size",
                      B(30000, 300000)))
     pat = profile(renege=0.8, jockey=0.5, baulk=0.6, prio=0.5, preempt=0.3, sched=0.25, qcap=0.4, syscap=0.2, n=[1, 2, 2, 3], ps=0.03, slot=0.05,
                   route_kinds={"matrix": 0.3, "net": 0.6, "pb": 0.1, "fpb": 0.0}, f_boundary=0.05)
-    register(Profile("C13", [C13, Ref], [(1, core), (5, pat), (1, dict(kfa, renege=0.8, baulk=0.5, f_boundary=0.05))],
+    pat3 = dict(pat, k=[3], prio=1.0, preempt=1.0, preempt_opts=["resume", "restart", "resample"], renege=1.0, n=[1, 1, 2], sched=0.0, qcap=0.0,
+                ps=0.0, slot=0.0, baulk=0.1)     # three priority levels: a pre-emptor that is pre-empted in turn
+    register(Profile("C13", [C13, Ref], [(1, core), (5, pat), (1, pat3), (1, dict(kfa, renege=0.8, baulk=0.5, f_boundary=0.05))],
                      "distinct history digest; non-trivial = >=1 renege or >=1 baulking decision with 0 < p < 1",
                      B(40000, 400000)))
     trk = profile(tracker=1.0, qcap=0.6, ccm=0.4, cct=0.25, renege=0.3, preempt=0.4, n=[1, 2, 2, 3], k=[1, 2, 2, 3], exact=0.05)
@@ -281,7 +284,7 @@ def _load():
                      B(8000, 80000), runner=c15.run_c15, gen=c15.gen_c15, features=c15.features15, minimiser=c15.minimise15, wall=60))
     ex = profile(ordinary_only=True, exact=1.0, time={"lat": 0.35, "dec": 0.65}, n=[1, 1, 2], k=[1, 2], inf=0.05, zero=0.0, preempt=0.0,
                  sched=0.35, sched_pre_opts=[False, False, "resume", "restart", "resample"], renege=0.35, prio=0.4, qcap=0.3, tdep=0.0,
-                 batch=0.2, horizon=[8.0, 20.0], ccm=0.1, cct=0.0, plan={"time": 1.0})
+                 batch=0.2, horizon=[8.0, 20.0], ccm=0.1, cct=0.0, plan={"time": 0.75, "cust": 0.25}, int_samples=0.4)
     exc = dict(ex, time={"cont": 1.0}, f_zero=0.0, policies=["uniform"], _cont=True)
     register(Profile("C20", [C20], [(3, ex), (1, exc)],
                      "exact=k runs (k in 10..30) on decimal-lattice tapes: every record field a Decimal, dates = exact rational sums of samples / "
@@ -296,7 +299,7 @@ def _load():
                   jockey=0.0, batch=0.2, horizon=[12.0, 30.0, 40.0], f_infarr=0.05,
                   route_kinds={"matrix": 0.5, "net": 0.4, "pb": 0.1, "fpb": 0.0})
     # pre-emptive priorities are not excluded by C07's quantifier; blocked customers must keep their server there too
-    blk_pre = dict(blk, prio=0.9, preempt=0.9, k=[2, 2, 3], preempt_opts=["resume", "restart", "resample", False])
+    blk_pre = dict(blk, prio=0.9, preempt=0.9, k=[2, 2, 3], preempt_opts=["resume", "restart", "resample", "reroute", False])
     register(Profile("C07", [C07, Ref], [(1, dict(core, qcap=1.0, n=[2, 2, 3, 4], qcap_vals=[0, 0, 1, 2, INF])), (3, blk), (1, blk_pre)],
                      "distinct history digest; non-trivial = >=1 blocking and >=1 unblocking (cascade depth probes reported)",
                      B(30000, 300000)))
